@@ -220,7 +220,7 @@ PROPS = {
     ),
     'C04': dict(
         title='Zinc text conforms to the Project Haystack grammar in both directions',
-        verus=[('u_zparse', [r'^parse_str_escape$', r'^Lexer::read$', r'^parse_literal$', r'^parse_id$', r'^lemma_lit_run_bytes$', r'^parse_unit$', r'^is_unit_char$']),
+        verus=[('u_zparse', [r'^parse_str_escape$', r'^parse_str_unicode_escape$', r'^parse_str$', r'^Lexer::read$', r'^parse_literal$', r'^parse_id$', r'^lemma_lit_run_bytes$', r'^parse_unit$', r'^is_unit_char$']),
                ('u_enc', [r'^write_quoted_str$', r'^Str::to_zinc$', r'^Marker::to_zinc$', r'^Remove::to_zinc$', r'^Na::to_zinc$', r'^Bool::to_zinc$', r'^Number::to_zinc$'])],
         kani=[dict(harness='k_scanner_classes', klass='complete', schema=['u8'], family=None, target='Scanner::is_* byte classes'),
               dict(harness='k_unit_char_class', klass='complete', schema=['u8'], family=None, target='zinc number::is_unit_char'),
@@ -231,11 +231,11 @@ PROPS = {
                     'proves one clause per string escape letter of parse_str_escape (\\b U+0008, \\f U+000C, \\n, \\r, \\t, \\", \\\\, \\$) '
                     'on the real body; Kani proves, over all 256 byte values on the real scanner methods, that every character class the '
                     'reader uses (spaces, newlines, digits, hex digits, id/ref/symbol/unit/zone alphabets, exponent and sign sets) is '
-                    'the byte set written in the contracts. Verus also proves on the real bodies that a literal / identifier / unit is exactly '
+                    'the byte set written in the contracts; \\uXXXX consumes four hex digits and denotes that UTF-16 unit (U+FFFD for a lone surrogate); a string literal denotes str_body of its bytes. Verus also proves on the real bodies that a literal / identifier / unit is exactly '
                     'the maximal run of its class at the head of the input (nothing else consumed), and that a capitalised literal not '
                     'followed by ( is decoded by the keyword table of the grammar: M R T F N NA NaN INF, anything else is an error. Writer side: '
                     'the keyword writers emit M R NA T F and the quoted-string writer emits " + enc(s) + " with enc written from the grammar.'),
-        not_decided=('The \\uXXXX clause (from_str_radix/from_utf16 have no Verus model); number spelling '
+        not_decided=('number spelling '
                      '(the string handed to str::parse::<f64>); the writer side other than keywords and quoted strings (write!/core::fmt, '
                      'enumerate() loops); Date/Time/DateTime/Coord text; whole-document layout. The unit class tests `> 128`, i.e. excludes '
                      'byte 0x80 that the grammar admits -- harmless: no database unit contains it (C15 lemma).'),
@@ -294,22 +294,27 @@ PROPS = {
     ),
     'C01': dict(
         title='Zinc encode -> decode returns the original value',
-        verus=[('u_zparse', [r'^lemma_keyword_roundtrip$', r'^Lexer::read$', r'^parse_literal$', r'^parse_str_escape$', r'^lemma_lit_run_bytes$']),
+        verus=[('u_zparse', [r'^lemma_keyword_roundtrip$', r'^Lexer::read$', r'^parse_literal$', r'^parse_str_escape$', r'^lemma_lit_run_bytes$',
+                             r'^parse_str$', r'^parse_str_unicode_escape$', r'^lemma_str_body_plain$', r'^lemma_hex4_value$', r'^lemma_str_body_char$',
+                             r'^lemma_str_body_enc$', r'^lemma_str_roundtrip$']),
                ('u_enc', [r'^write_quoted_str$', r'^Str::to_zinc$', r'^lemma_str_escape_inverse$', r'^Marker::to_zinc$', r'^Remove::to_zinc$', r'^Na::to_zinc$', r'^Bool::to_zinc$', r'^Number::to_zinc$'])],
         kani=[dict(harness='k_zinc_keywords', klass='complete', schema=['u8'], family=None, target='to_zinc of Marker/Remove/Na/Bool')],
         witness='enum:zinc-roundtrip-scalars',
         design_ref='DESIGN.md section 4, C01',
-        level_text=('Proof for the keyword-valued scalars only (Marker, Remove, NA, true, false; Null on the reader side): Kani proves the real '
-                    'writers emit exactly M, R, NA, T, F; Verus proves on the real Lexer::read that a capitalised literal is read as the maximal '
-                    'run of literal bytes and mapped by the grammar\'s keyword table, and the corollary lemma composes the two into '
-                    'decode(encode(v)) == v (the writers\' bytes are also proved in Verus after rule R18). For strings both halves are proved at the '
-                    'character level: the real quoted-string writer emits exactly " + enc(s) + " where enc spells each character as the grammar '
-                    'prescribes (the six letter escapes, \\\\uXXXX for other C0 controls, everything else as UTF-8); the real reader decodes each '
-                    'escape letter to the character the grammar assigns to it; lemma_str_escape_inverse composes them per character.'),
-        not_decided=('The whole-string inverse for the reader (that parse_str applied to " + enc(s) + " returns s: an induction over the byte-level loop, '
-                     'not attempted); Uri/Ref/Symbol/XStr writers beyond panic-freedom; Number, Coord, Date, Time, DateTime (core::fmt / chrono text); List, Dict and '
-                     'Grid layout (enumerate() loops); nesting. Known outside the decided part: a grid with meta is written with the meta after '
-                     'the newline and does not decode; a Uri containing a lone backslash comes back with two.'),
+        level_text=('Proof of decode(encode(v)) == v for two families of values. (1) Strings, all of them (every Unicode string incl. controls, quotes, '
+                    'backslash, $, astral planes): Verus proves on the real write_quoted_str (= Str::to_zinc) that the output is " + enc(s) + " with '
+                    'enc written from the grammar; on the real parse_str / parse_str_escape / parse_str_unicode_escape that the result is the '
+                    'UTF-8 decoding of str_body(bytes after the opening quote), a byte-level spec of a string body; on the real Lexer::read that '
+                    'a token starting with a quote is that Str; and lemma_str_roundtrip proves utf8_decode(str_body(enc(s) + " + anything)) == s. '
+                    '(2) Keyword-valued scalars (Marker, Remove, NA, true, false; Null on the reader side): the real writers emit M R NA T F '
+                    '(Verus after rule R18, and Kani), Lexer::read maps a capitalised literal through the grammar\'s keyword table, and '
+                    'lemma_keyword_roundtrip composes them.'),
+        not_decided=('Ref display names and XStr values reuse the proved quoted-string writer and reader but their own framing (@id, Type( )) is '
+                     'proved panic-free only; Uri, Symbol; Number, Coord, Date, Time, DateTime (core::fmt / chrono text); List, Dict and Grid '
+                     'layout (enumerate() loops); nesting. Assumed: the UTF-8 axioms of strspec.vt, the two core::fmt helper contracts used by '
+                     'the string writer (\\u{:04x} of a code point, {} of one character), u16::from_str_radix and String::from_utf16_lossy. '
+                     'Known outside the decided part: a grid with meta is written with the meta after the newline and does not decode; '
+                     'a Uri containing a lone backslash comes back with two.'),
         technique='contract-based deductive verification: Verus postconditions on the real lexer + Kani complete harness on the real keyword writers',
     ),
 }
